@@ -48,6 +48,9 @@ type VMOp struct {
 	// to this run as the environment's dynamic member Any (the live object for the
 	// reused VM; a deep copy taken when it was returned for the fresh-VM run).
 	Feed bool `json:"feed_previous_result,omitempty"`
+	// Rep, when set, is the environment representation for this op only (the
+	// programs were compiled for the scenario's representation).
+	Rep string `json:"env_representation,omitempty"`
 }
 
 type VMScenario struct {
@@ -214,6 +217,9 @@ func genVMScenario(seed uint64, idx int, tier string, snapshotBias bool) *VMScen
 		if r.Chance(1, 4) {
 			op.Feed = true
 		}
+		if r.Chance(1, 8) {
+			op.Rep = []string{RepStruct, RepPtr, RepMap}[r.Intn(3)]
+		}
 		if r.Chance(1, 6) {
 			op.Faults = []CallFault{{Idx: r.Intn(6), Kind: allFaultKinds[r.Intn(len(allFaultKinds))]}}
 		}
@@ -379,7 +385,12 @@ func withAny(e *Env, rep string, any interface{}) interface{} {
 // keys; nil-safe access to absent members.
 func genTouching(r *RNG) *N {
 	envSeq := func() *N { return nID(r.Pick([]string{"Xs", "Ys"})) }
-	switch r.Intn(9) {
+	switch r.Intn(11) {
+	case 9:
+		// equality and membership of pointers to equal objects
+		return nArr(nBin("==", nID("O"), nID("O2")), nBin("!=", nID("O2"), nProp(nID("O"), "Next", false)), nBin("in", nID("O2"), nID("Objs")))
+	case 10:
+		return nBin(r.Pick([]string{"==", "!="}), nID("O2"), nID("O"))
 	case 0:
 		return nBi("filter", envSeq(), nBin(">", nPtr(), nInt(r.Range(-2, 3))))
 	case 1:
@@ -464,9 +475,16 @@ func compileAll(sc *VMScenario, ctx *RunCtx, prop string) ([]compiledProg, *Find
 }
 
 // oneRun runs prog on machine (nil = fresh VM) with a fresh world.
+func opRep(sc *VMScenario, op VMOp) string {
+	if op.Rep != "" {
+		return op.Rep
+	}
+	return sc.Rep
+}
+
 func oneRun(sc *VMScenario, machine *vm.VM, cp compiledProg, op VMOp, crash int) (Outcome, []CallRec, interface{}) {
 	w := NewWorld(sc.Stateful, op.Faults, nil)
-	envv := BuildEnv(w, sc.Envs[op.Env]).AsRep(sc.Rep)
+	envv := BuildEnv(w, sc.Envs[op.Env]).AsRep(opRep(sc, op))
 	vm.MemoryBudget = op.Budget
 	beginRun(crash, 0)
 	out := sutRun(machine, cp.prog, envv)
@@ -550,12 +568,12 @@ func runVMHistory(sc *VMScenario, ctx *RunCtx, prop string) *Finding {
 		}
 		var envBefore string
 		w := NewWorld(sc.Stateful, op.Faults, nil)
-		envv := BuildEnv(w, sc.Envs[op.Env]).AsRep(sc.Rep)
+		envv := BuildEnv(w, sc.Envs[op.Env]).AsRep(opRep(sc, op))
 		feed := op.Feed && lastOut[op.VM] != nil
 		var freshEnv interface{}
 		if feed {
 			ctx.Count("ops_fed_previous_result", 1)
-			envv = withAny(BuildEnv(w, sc.Envs[op.Env]), sc.Rep, lastOut[op.VM])
+			envv = withAny(BuildEnv(w, sc.Envs[op.Env]), opRep(sc, op), lastOut[op.VM])
 		}
 		if prop == "C09" {
 			envBefore = Snapshot(envv)
@@ -566,7 +584,7 @@ func runVMHistory(sc *VMScenario, ctx *RunCtx, prop string) *Finding {
 		var wantJ []CallRec
 		if feed {
 			wf := NewWorld(sc.Stateful, op.Faults, nil)
-			freshEnv = withAny(BuildEnv(wf, sc.Envs[op.Env]), sc.Rep, deepCopy(lastCopy[op.VM]))
+			freshEnv = withAny(BuildEnv(wf, sc.Envs[op.Env]), opRep(sc, op), deepCopy(lastCopy[op.VM]))
 			vm.MemoryBudget = op.Budget
 			beginRun(crash, 0)
 			want = sutRun(nil, cp.prog, freshEnv)
@@ -680,7 +698,11 @@ func runVMHistory(sc *VMScenario, ctx *RunCtx, prop string) *Finding {
 			// same run on an equal environment (fresh VM, fresh equal world)
 			again, againJ := want, wantJ
 			if !feed {
+				// ... an environment that is deep-equal but shares pointers differently
+				// (O2 aliases O instead of being an equal copy)
+				AliasO2 = true
 				again, againJ, _ = oneRun(sc, nil, cp, op, crash)
+				AliasO2 = false
 			}
 			ctx.Eval()
 			if again.Key() != want.Key() || journalDiff(againJ, wantJ) != "" {
@@ -790,6 +812,9 @@ func vmShrinks(sc *VMScenario) []interface{} {
 		}
 		if op.Feed {
 			add(func(c *VMScenario) { c.Ops[i].Feed = false })
+		}
+		if op.Rep != "" {
+			add(func(c *VMScenario) { c.Ops[i].Rep = "" })
 		}
 		if op.Env != 0 {
 			add(func(c *VMScenario) { c.Ops[i].Env = 0 })
